@@ -385,7 +385,7 @@ def _rebound(fn, name: str) -> bool:
     return any(name in names for names, _ in _bindings(fn))
 
 
-def seed_kind(expr, fn, what: str) -> str:
+def seed_kind(expr, fn, what: str, _depth: int = 0) -> str:
     """'seed' (the user's pipeline_seed held by self), 'param' (the function's own parameter `pipeline_seed`, handed on
     unchanged), 'none' (no seed)."""
     if expr is None or (isinstance(expr, ast.Constant) and expr.value is None):
@@ -397,6 +397,13 @@ def seed_kind(expr, fn, what: str) -> str:
         if _rebound(fn, "pipeline_seed"):
             fail(expr, f"{what}: `pipeline_seed` is re-bound inside the function")
         return "param"
+    if isinstance(expr, ast.Name) and expr.id not in _fn_params(fn) and _depth < 3:
+        # a local alias: bound exactly once, by a plain assignment, to a recognised seed expression
+        vals = [val for names, val in _bindings(fn) if expr.id in names]
+        plain = [st for st in ast.walk(fn) if isinstance(st, (ast.Assign, ast.AnnAssign)) and any(
+            isinstance(t, ast.Name) and t.id == expr.id for t in (st.targets if isinstance(st, ast.Assign) else [st.target]))]
+        if len(vals) == 1 and len(plain) == 1:
+            return seed_kind(vals[0], fn, what, _depth + 1)
     fail(expr, f"{what}: unrecognised seed expression")
 
 
@@ -497,6 +504,15 @@ def _self_seed_is_users(cls_node, what: str) -> bool:
     init = [n for n in cls_node.body if isinstance(n, ast.FunctionDef) and n.name == "__init__"]
     if len(init) != 1 or "pipeline_seed" not in _fn_params(init[0]):
         return False
+    # nobody but the constructor and the property setter stores the seed (an object that moves its seed on from call
+    # to call gives the second call another seed than the user configured)
+    for n in cls_node.body:
+        if isinstance(n, ast.FunctionDef) and n.name not in ("__init__", "pipeline_seed"):
+            for st in ast.walk(n):
+                tgts = st.targets if isinstance(st, (ast.Assign, ast.Delete)) else \
+                    [st.target] if isinstance(st, (ast.AugAssign, ast.AnnAssign)) else []
+                if any(self_attr(t) in SEED_ATTRS for t in tgts):
+                    fail(st, f"{what}: {cls_node.name}.{n.name} changes the stored pipeline seed")
     stored = set()
     for st in ast.walk(init[0]):
         tgt = val = None
